@@ -29,7 +29,8 @@ RULE = ('histories over 2-5 Reaction objects and the parallel/series sets, items
         "phases 'gls'; dyadic stoichiometries and conversions) built through the real constructor, followed by "
         'random arithmetic / in-place / copy / backwards / basis / set / item / slice / set-copy / reduce / reset_chemicals / '
         'apply operations (10% of the cases: a Reaction against items of a set on the other basis) generated '
-        'adaptively on the real objects; a case is non-trivial when at least one arithmetic operation succeeded; '
+        'adaptively on the real objects; conversions and scalars are handed over as Python float, numpy.float64, '
+        '0-d numpy array or int (about a third of the scalars are not plain floats); a case is non-trivial when at least one arithmetic operation succeeded; '
         'distinct = distinct op sequences')
 ASSUMPTIONS = [
     'Python object identity is modelled by ids into an explicit store (arrays, X arrays, objects)',
@@ -125,7 +126,25 @@ def dense_str(vals):
 
 
 def parse_num(t):
-    return float(Fraction(t))
+    return float(Fraction(t.split('@')[0]))
+
+
+def plain(t):
+    """value of a scalar token without its `@how` suffix"""
+    return float(Fraction(t.split('@')[0]))
+
+
+def typed(t):
+    """a scalar token `value[@how]` as the Python object the real code receives: `@f`/none a float,
+    `@n` a numpy.float64, `@a` a 0-d numpy.ndarray (what an optimiser or an array reduction hands over),
+    `@i` an int"""
+    import numpy as np
+    v, _, how = t.partition('@')
+    x = float(Fraction(v))
+    if how == 'n': return np.float64(x)
+    if how == 'a': return np.asarray(x)
+    if how == 'i': return int(x)
+    return x
 
 
 # --------------------------------------------------------------------------
@@ -138,7 +157,7 @@ class BadCase(Exception):
 
 LEGIT_ERRORS = [
     (ValueError, 'must be the same'), (ValueError, 'must pass reactant'), (ValueError, 'basis must be'),
-    (ValueError, 'all reactions must'), (ZeroDivisionError, ''), (RuntimeError, 'does not participate'),
+    (ValueError, 'all reactions must'), (ZeroDivisionError, ''), (FloatingPointError, 'divide by zero'), (RuntimeError, 'does not participate'),
     (TypeError, 'cannot change basis'), (TypeError, 'cannot reduce'), (IndexError, ''), ('UndefinedChemicalAlias', ''),
 ]
 
@@ -267,6 +286,9 @@ class Universe:
                 toks.add(('x', id(xbase(o._X)), xoff(o._X) + int(o._index)))
             else:
                 toks.add(('own', id(o)))
+                if hasattr(o._X, '__array_interface__') and getattr(o._X, 'ndim', None) is not None \
+                        and not isinstance(o._X, (float, int)) and type(o._X).__name__ == 'ndarray':
+                    toks.add(('xobj', id(xbase(o._X))))      # a mutable array stored as the conversion
         return toks
 
     def dump(self):
@@ -398,7 +420,7 @@ class Universe:
             (left if v < 0 else right).append(s + ' ' + name)
         if not left or not right: raise BadCase('one-sided reaction')
         eq = ' + '.join(left) + ' -> ' + ' + '.join(right)
-        kw = dict(reactant=IDS[c], X=float(X), basis='mol' if basis == 'm' else 'wt')
+        kw = dict(reactant=IDS[c], X=X, basis='mol' if basis == 'm' else 'wt')
         if ph: kw['phases'] = PHASES[ph]
         return tmo.Reaction(eq, **kw)
 
@@ -408,7 +430,7 @@ class Universe:
         'ret' (payload = returned object), 'out' (payload = string of vectors) ; exceptions propagate."""
         t = line.split(' ')
         op = t[0]
-        num = lambda s: float(Fraction(s))
+        num = plain
         barg = {'-': None, 'm': 'mol', 'w': 'wt', 'x': 'xx'}
         def other(s):
             if s == 'none': return None
@@ -417,9 +439,9 @@ class Universe:
         if op == 'new':
             ph = int(t[1])
             entries = [] if t[5] == '-' else [(int(a), num(b)) for a, b in (it.split(':') for it in t[5].split(';'))]
-            return 'ret', self.make_reaction(ph, t[2], int(t[3]), num(t[4]), entries), line
+            return 'ret', self.make_reaction(ph, t[2], int(t[3]), typed(t[4]), entries), line
         if op == 'empty':
-            return 'ret', tmo.Reaction('', reactant=IDS[int(t[2])], X=num(t[3]),
+            return 'ret', tmo.Reaction('', reactant=IDS[int(t[2])], X=typed(t[3]),
                                        basis='mol' if t[1] == 'm' else 'wt'), line
         if op == 'copy':
             a = self.rxn(t[1])
@@ -429,16 +451,16 @@ class Universe:
         if op == 'sub': return 'ret', self.rxn(t[1]) - other(t[2]), line
         if op == 'iadd': return 'ret', operator.iadd(self.rxn(t[1]), other(t[2])), line
         if op == 'isub': return 'ret', operator.isub(self.rxn(t[1]), other(t[2])), line
-        if op == 'mul': return 'ret', self.rxn(t[1]) * num(t[2]), line
-        if op == 'rmul': return 'ret', num(t[2]) * self.rxn(t[1]), line
-        if op == 'div': return 'ret', self.rxn(t[1]) / num(t[2]), line
+        if op == 'mul': return 'ret', self.rxn(t[1]) * typed(t[2]), line
+        if op == 'rmul': return 'ret', typed(t[2]) * self.rxn(t[1]), line
+        if op == 'div': return 'ret', self.rxn(t[1]) / typed(t[2]), line
         if op == 'neg': return 'ret', -self.rxn(t[1]), line
-        if op == 'imul': return 'ret', operator.imul(self.rxn(t[1]), num(t[2])), line
-        if op == 'idiv': return 'ret', operator.itruediv(self.rxn(t[1]), num(t[2])), line
+        if op == 'imul': return 'ret', operator.imul(self.rxn(t[1]), typed(t[2])), line
+        if op == 'idiv': return 'ret', operator.itruediv(self.rxn(t[1]), typed(t[2])), line
         if op == 'back':
             kw = {}
             if t[2] != '-': kw['reactant'] = self.rxn(t[1]).chemicals.IDs[int(t[2])]
-            if t[3] != '-': kw['X'] = num(t[3])
+            if t[3] != '-': kw['X'] = typed(t[3])
             return 'ret', self.rxn(t[1]).backwards(**kw), line
         if op == 'setbasis':
             o = self.ref(t[1])
@@ -446,7 +468,7 @@ class Universe:
             return 'ret', o, line
         if op == 'setx':
             o = self.rxn(t[1])
-            o.X = num(t[2])
+            o.X = typed(t[2])
             return 'ret', o, line
         if op == 'mkset':
             return 'ret', tmo.ParallelReaction([self.rxn(x) for x in t[1].split(',')]), line
@@ -467,7 +489,7 @@ class Universe:
         if op == 'setsx':
             s = self.rset(t[1]); i = int(t[2])
             if i >= len(s._X): raise IndexError('item index')
-            s.X[i] = num(t[3])
+            s.X[i] = typed(t[3])
             return 'ret', s, line
         if op == 'reduce':
             s = self.rset(t[1])
@@ -578,12 +600,12 @@ class Oracle:
                     b = None if self.t[2] == 'none' else (0 if self.t[2] == 'zero' else U.rxn(self.t[2]))
                     self.ref = ('ok', U.fields(a + b if self.op == 'iadd' else a - b))
                 else:
-                    k = float(Fraction(self.t[2]))
+                    k = typed(self.t[2])
                     self.ref = ('ok', U.fields(a * k if self.op == 'imul' else a / k))
             except BadCase:
                 raise
             except Exception as e:
-                self.ref = ('err', type(e).__name__, legit_error(e))
+                self.ref = ('err', 'ZeroDivisionError' if isinstance(e, FloatingPointError) else type(e).__name__, legit_error(e))
                 if not legit_error(e):
                     self.add('raises:%s@%s' % (type(e).__name__, raised_in(e)),
                              'the binary form of `%s` raised %s: %s' % (line, type(e).__name__, str(e)[:120]))
@@ -694,7 +716,7 @@ class Oracle:
                 o = U.objs[int(t[1][1:])]
                 cellk = ('x', id(xbase(o._X)), xoff(o._X) + int(t[2]))
                 val = float(o._X[int(t[2])])
-                if not (val == float(Fraction(t[3]))):
+                if not (val == plain(t[3])):
                     self.add('setsx:write-lost', 'after `%s` the set reads %r' % (self.line, val))
             elif is_item(res):
                 cellk = ('x', id(xbase(res._X)), xoff(res._X) + int(res._index))
@@ -777,9 +799,9 @@ class Oracle:
             if b is not None and b.has_reaction() and not normalised(b): return
             self.linear_law(res, terms)
         elif op in ('mul', 'rmul'):
-            self.linear_law(res, [(U.rxn(t[1]), float(Fraction(t[2])))])
+            self.linear_law(res, [(U.rxn(t[1]), plain(t[2]))])
         elif op == 'div':
-            self.linear_law(res, [(U.rxn(t[1]), 1.0 / float(Fraction(t[2])))])
+            self.linear_law(res, [(U.rxn(t[1]), 1.0 / plain(t[2]))])
         elif op == 'neg':
             self.linear_law(res, [(U.rxn(t[1]), -1.0)])
         elif op == 'copy':
@@ -863,7 +885,10 @@ def run_ops(ops):
         except Exception as e:
             mline = U._pending_model_line
             orc.after_error(e)
-            status = 'err=' + type(e).__name__
+            # (dividing by a numpy zero raises FloatingPointError under thermosteam's numpy error state:
+            #  the same "division by zero" of the error enum)
+            status = 'err=' + ('ZeroDivisionError' if isinstance(e, FloatingPointError) and 'divide by zero' in str(e)
+                               else type(e).__name__)
         else:
             if kind == 'ret':
                 k = U.index_of(res)
@@ -895,6 +920,8 @@ def run_impl(case: Case) -> ImplResult:
     tags = sorted({l.split(' ')[0] for l in case.ops})
     tags += ['err:' + o.split('|')[1].strip()[4:] for o in outs if o[2:].startswith('err=')]
     tags.append('mode:' + ('exact' if outs and outs[-1].startswith('E|') else 'tolerance'))
+    for suf, nm in (('@a', 'X-as:0d-array'), ('@n', 'X-as:np.float64'), ('@i', 'X-as:int')):
+        if any(suf in l for l in case.ops): tags.append(nm)
     # keep one failure per signature and case
     seen, fl = set(), []
     for f in failures:
@@ -965,6 +992,17 @@ def dy(rng, lo, hi, den):
     return rng.randrange(int(lo * den), int(hi * den) + 1) / den
 
 
+def how(rng, v):
+    """token of a scalar together with the way it is handed to the real code"""
+    r = rng.random()
+    suf = ''
+    if r < 0.66: suf = ''
+    elif r < 0.76: suf = '@n'
+    elif r < 0.95: suf = '@a'
+    elif float(v) == int(v): suf = '@i'
+    return frac(v) + suf
+
+
 def gen_X(rng, friendly):
     r = rng.random()
     if friendly:
@@ -998,7 +1036,7 @@ def gen_new(rng, ph, c, friendly, basis, flip=False):
         p = rng.randrange(rows)
         flat.append((p * N + j, v))
     flat.sort()
-    return 'new %d %s %d %s %s' % (ph, basis, c, frac(gen_X(rng, friendly)),
+    return 'new %d %s %d %s %s' % (ph, basis, c, how(rng, gen_X(rng, friendly)),
                                    ';'.join('%d:%s' % (i, frac(v)) for i, v in flat))
 
 
@@ -1057,9 +1095,9 @@ def gen_op(rng, U, friendly):
     if kind in ('mul', 'imul'):
         k = gen_k(rng, friendly, False)
         nm = kind if kind == 'imul' else rng.choice(['mul', 'rmul'])
-        return '%s r%d %s' % (nm, a, frac(k))
+        return '%s r%d %s' % (nm, a, how(rng, k))
     if kind in ('div', 'idiv'):
-        return '%s r%d %s' % (kind, a, frac(gen_k(rng, friendly, True)))
+        return '%s r%d %s' % (kind, a, how(rng, gen_k(rng, friendly, True)))
     if kind == 'neg': return 'neg r%d' % a
     if kind == 'copy':
         return 'copy r%d %s' % (a, rng.choices(['-', 'm', 'w', 'x'], [50, 22, 25, 3])[0])
@@ -1071,12 +1109,12 @@ def gen_op(rng, U, friendly):
         if r < 0.45 or not nz: c = '-'
         elif r < 0.93: c = str(rng.choice(nz))
         else: c = str(rng.randrange(nch(oa)))
-        x = '-' if rng.random() < 0.6 else frac(gen_X(rng, friendly))
+        x = '-' if rng.random() < 0.6 else how(rng, gen_X(rng, friendly))
         return 'back r%d %s %s' % (a, c, x)
     if kind == 'setbasis':
         tgt = a if rng.random() < 0.9 or not sets else rng.choice(sets)
         return 'setbasis r%d %s' % (tgt, rng.choices(['m', 'w', 'x', '-'], [40, 50, 5, 5])[0])
-    if kind == 'setx': return 'setx r%d %s' % (a, frac(gen_X(rng, friendly)))
+    if kind == 'setx': return 'setx r%d %s' % (a, how(rng, gen_X(rng, friendly)))
     if kind == 'mkset':
         good = [k for k in rx if nph(U.objs[k]) == nph(oa) and (U.objs[k]._basis == oa._basis or rng.random() < 0.05)
                 and (U.objs[k].chemicals is oa.chemicals or rng.random() < 0.05)]
@@ -1102,7 +1140,7 @@ def gen_op(rng, U, friendly):
         if n == 0: return None
         i = rng.randrange(n) if rng.random() < 0.97 else n
         if kind == 'item': return 'item r%d %d' % (s, i)
-        return 'setsx r%d %d %s' % (s, i, frac(gen_X(rng, friendly)))
+        return 'setsx r%d %d %s' % (s, i, how(rng, gen_X(rng, friendly)))
     if kind in ('apply', 'applys'):
         tgt = rng.choice(rx + sets)
         o = U.objs[tgt]; ph = nph(o)
@@ -1186,7 +1224,7 @@ def gen_case(rng, length):
     r = rng.random()
     if r < 0.07: do(gen_new(rng, ph, (c + 1 + rng.randrange(N - 1)) % N, friendly, base))      # another reactant
     elif r < 0.12: do(gen_new(rng, 2 if ph else 3, c, friendly, base))                         # other phases
-    elif r < 0.16: do('empty %s %d %s' % (base, c, frac(gen_X(rng, friendly))))               # Reaction('')
+    elif r < 0.16: do('empty %s %d %s' % (base, c, how(rng, gen_X(rng, friendly))))               # Reaction('')
     n = 0
     tries = 0
     while n < length and tries < 6 * length:
@@ -1250,8 +1288,8 @@ def gen_case_item_mixed(rng, length):
         elif kind == 'isub' and not xsum_zero(it, 0, -1): line = 'isub r%d r0' % it
         elif kind == 'iadd2' and not xsum_zero(0, it, 1): line = 'iadd r0 r%d' % it
         elif kind == 'applys': line = 'applys r%d %s' % (rng.choice(rx + [sid]), gen_feed(rng, ph, hot))
-        elif kind == 'setsx': line = 'setsx r%d %d %s' % (sid, rng.randrange(nset), frac(gen_X(rng, friendly) or 0.5))
-        elif kind == 'setx': line = 'setx r%d %s' % (it, frac(gen_X(rng, friendly) or 0.25))
+        elif kind == 'setsx': line = 'setsx r%d %d %s' % (sid, rng.randrange(nset), how(rng, gen_X(rng, friendly) or 0.5))
+        elif kind == 'setx': line = 'setx r%d %s' % (it, how(rng, gen_X(rng, friendly) or 0.25))
         elif kind == 'subcancel' and float(U.objs[0].X) != 0.0 and not xsum_zero(0, it, 1):
             line = 'subcancel r0 r%d %s' % (it, gen_feed(rng, ph, hot))
         elif kind == 'copy': line = 'copy r%d %s' % (it, rng.choice(['-', 'm', 'w']))
